@@ -85,6 +85,13 @@ CHECKS = {
          "plus Hypothesis-drawn cases; both directions (accepts all well-formed, rejects every single-byte corruption).",
          "functional behaviour only, no timing; reference MACs are stdlib hmac/hashlib; SSLv3 pad==block size counted as either",
          "DESIGN.md §4 C12"),
+ "C13": ("exploration",
+         "model-based stateful property testing: generated operation histories interpreted against real endpoints and a reference eligibility model",
+         "Histories of full handshakes (TLS 1.0/1.2/1.3; session cache and/or ticket keys; EMS/EtM/SNI/client-certificate options), closes (clean, fatal, abrupt, lost close_notify), clock movements on either side, ticket-key rotations, cache fills, ticket/id tampering (bit flip, truncation, garbage, foreign server, random id) "
+         "and resume attempts with unchanged or changed offers are run against two real endpoints; 'resumed' is judged from the client flag and from the wire; a three-valued reference model decides eligibility: resumed only if eligible, forged/altered/expired/foreign/unknown never resume and never break the connection (full handshake completes), "
+         "inconsistent offers never resume, resumed connections carry the original suite, EMS, EtM, server name and client identity.",
+         "boundary ages and RFC-permitted alternatives are 'either'; one open known finding (TLS<=1.2 ticket declined -> client breaks the full handshake) is excluded by construction and counted",
+         "DESIGN.md §4 C13"),
  "C14": ("exploration",
          "metamorphic property-based testing: scripted sockets / API paths / record re-framing vs the baseline run of the same seed (byte-identical wire, same outcomes)",
          "14 scenarios (handshake flavours incl. failing negotiations, client auth, HRR, SRP, tickets/NPN, followed by writes, exact reads, KeyUpdate, close) are replayed under generated schedules of per-call recv/send sizes with would-blocks and endpoint interleavings, "
